@@ -14,8 +14,9 @@ PID = "C18"
 LEVEL = "exploration"
 RULE = ("seeded tensors over shapes {0-d, empty, 1-d, 2-d, 3-d} x dtypes {bool, int8, int64, float16, float32, float64} x constant flag x "
         "gradient state {none, from a real backward, a view holding a view-gradient, a base whose view carries the graph, nulled} x graph "
-        "state {leaf, inside a live graph as input, op output with creator} saved and re-loaded through four carriers (str path with .npz "
-        "suffix, pathlib.Path, BytesIO, a real binary file object). Judged: load(save(t)) has equal data (array_equal, NaN==NaN), identical "
+        "state {leaf, inside a live graph as input, op output with creator} saved and re-loaded through eight carriers (str path with .npz "
+        "suffix, pathlib.Path, BytesIO, a real binary file object, BytesIO / file object whose archive starts after a caller-written header, "
+        "str / Path names with dots and no suffix next to a sibling name). Judged: load(save(t)) has equal data (array_equal, NaN==NaN), identical "
         "dtype and shape, and a gradient equal to t.grad in value, shape, dtype and presence; a snapshot of t and of every other live tensor "
         "(bytes, dtype, shape, flags, gradient bytes, creator/base identity, consumer count, writeability) is identical before and after save. "
         "Non-trivial: the tensor carries a gradient; distinct = (shape, dtype, constant, gradient state, graph state, carrier).")
@@ -27,12 +28,12 @@ SHAPES = [(), (0,), (3,), (2, 3), (1, 2, 2), (2, 0)]
 DTS = ["bool", "int8", "int64", "float16", "float32", "float64"]
 GRADS = ["none", "backward", "view", "base_of_view", "nulled", "seeded"]
 GRAPHS = ["leaf", "input_of_live_graph", "op_output"]
-CARRIERS = ["str", "Path", "BytesIO", "fileobj"]
+CARRIERS = ["str", "Path", "BytesIO", "fileobj", "BytesIO_offset", "fileobj_offset", "str_dots", "Path_dots"]
 
 
 def gen_case(rng, cfg, idx):
     return {"shape": list(rng.choice(SHAPES)), "dtype": rng.choice(DTS + ["float64", "float32"]), "constant": rng.choice([None, None, None, True]),
-            "grad": rng.choice(GRADS + ["backward", "seeded", "view"]), "graph": rng.choice(GRAPHS + ["leaf", "leaf", "op_output"]), "carrier": CARRIERS[idx % 4], "vseed": rng.randrange(1 << 30), "special": rng.random() < 0.2}
+            "grad": rng.choice(GRADS + ["backward", "seeded", "view"]), "graph": rng.choice(GRAPHS + ["leaf", "leaf", "op_output"]), "carrier": CARRIERS[idx % len(CARRIERS)], "vseed": rng.randrange(1 << 30), "special": rng.random() < 0.2}
 
 
 def build(case):
@@ -114,6 +115,34 @@ def run_case(case):
             target = io.BytesIO()
             mg.save(target, t)
             target.seek(0)
+        elif car == "BytesIO_offset":
+            # the archive does not start at byte 0 of the stream (a caller-written header precedes it): load reads from where the stream stands
+            target = io.BytesIO()
+            target.write(b"HEADER-0123456789")
+            mg.save(target, t)
+            target.seek(len(b"HEADER-0123456789"))
+        elif car == "fileobj_offset":
+            p = os.path.join(d, "t.bin")
+            with open(p, "wb") as fobj:
+                fobj.write(b"HDR\x00\x01\x02\x03")
+                mg.save(fobj, t)
+            target = open(p, "rb")
+            target.seek(7)
+        elif car in ("str_dots", "Path_dots"):
+            # names with dots and without the .npz suffix: NumPy appends '.npz' to the whole name; sibling names must not collide
+            n1, n2 = os.path.join(d, "weights.step1"), os.path.join(d, "weights.step2")
+            other = mg.tensor(np.full((2,), 7.5))
+            if car == "Path_dots":
+                mg.save(Path(n1), t)
+                mg.save(Path(n2), other)
+                target = Path(n1 + ".npz")
+            else:
+                mg.save(n1, t)
+                mg.save(n2, other)
+                target = n1 + ".npz"
+            if sorted(os.listdir(d)) != ["weights.step1.npz", "weights.step2.npz"]:
+                viol.append({"monitor": "roundtrip", "mech": "save-file-name", "msg": f"saving to 'weights.step1' and 'weights.step2' produced {sorted(os.listdir(d))}"})
+            del other
         else:
             p = os.path.join(d, "t.npz")
             with open(p, "wb") as fobj:
@@ -128,9 +157,14 @@ def run_case(case):
             viol.append({"monitor": "M-immut", "mech": "save-replaces-gradient-object", "msg": "t.grad is a different object after save"})
         try:
             r = mg.load(target)
+        except Exception as e:
+            viol.append({"monitor": "roundtrip", "mech": f"load-raises:{car}:{type(e).__name__}", "msg": f"load through carrier {car} raised {type(e).__name__}: {e}"})
+            r = None
         finally:
-            if car == "fileobj":
+            if car.startswith("fileobj"):
                 target.close()
+        if r is None:
+            return {"viol": viol[:3], "counters": cnt, "sets": {"carriers": [car]}, "sig": repr(car), "nontrivial": False}
         cnt["roundtrips"] += 1
         if not isinstance(r, mg.Tensor):
             viol.append({"monitor": "roundtrip", "mech": "load-not-tensor", "msg": f"load returned {type(r).__name__}"})
